@@ -94,7 +94,8 @@ SCOPES = {
                               Mags=set(), Exps={1})),
         ],
         "bounds": [
-            ("bounds", _scope(Mode="bounds", NGroups={1, 2}, Caps={1}, Socs={2}, BatBnds=QB,
+            # every configuration with every non-empty set of working batteries
+            ("bounds", _scope(Mode="bounds", NGroups={1, 2}, Caps={1}, Socs={2}, BatBnds={(-6, -2, 0, 2), (-2, 0, 2, 6), (-6, 0, 3, 6)},
                               InvBnds=bnds({2, 4}, {0, 1, 2}), Shapes1={(1, 1), (1, 2), (2, 1), (2, 2)}, ShapesR={(1, 1), (2, 1)},
                               Mags=set(), Exps={1})),
         ],
@@ -139,11 +140,11 @@ SCOPES = {
                               Mags=set(), Exps={1})),
         ],
         "bounds": [
-            ("bounds", _scope(Mode="bounds", NGroups={1, 2}, Caps={1}, Socs={2}, BatBnds=bnds({2, 4, 6}, {0, 2, 3}),
-                              InvBnds=bnds({2, 4, 6}, {0, 1, 2}), Shapes1={(1, 1), (1, 2), (2, 1), (2, 2)}, ShapesR={(1, 1), (1, 2), (2, 1)},
+            ("bounds", _scope(Mode="bounds", NGroups={1, 2}, Caps={1}, Socs={2}, BatBnds=QB,
+                              InvBnds=bnds({2, 4}, {0, 1, 2}), Shapes1={(1, 1), (1, 2), (2, 1), (2, 2)}, ShapesR={(1, 1), (1, 2), (2, 1)},
                               Mags=set(), Exps={1})),
             ("bounds3", _scope(Mode="bounds", NGroups={3}, Caps={1}, Socs={2}, BatBnds=QB - {(-4, 0, 0, 4), (-4, -3, 0, 4)},
-                               InvBnds=bnds({2, 4}, {0, 2}), Shapes1={(1, 1), (1, 2), (2, 1)}, ShapesR={(1, 1), (1, 2)},
+                               InvBnds=bnds({2, 4}, {0, 2}), Shapes1={(1, 1), (1, 2), (2, 1)}, ShapesR={(1, 1)},
                                Mags=set(), Exps={1})),
         ],
         "admit": [
@@ -179,8 +180,12 @@ class _Cache:
 
 
 class _Tracker:
+    """Stands in for ComponentPoolStatusTracker: the set the manager gets from get_working_components."""
+
+    working = None  # None: every battery is working
+
     def get_working_components(self, ids):
-        return set(ids)
+        return set(ids) if self.working is None else set(ids) & self.working
 
     async def update_status(self, ok, failed) -> None:
         return None
@@ -294,7 +299,8 @@ class Rig:
         m._bat_bats_map, m._inv_invs_map = maps["bat_bats"], maps["inv_invs"]
         m._battery_caches = {b: _Cache() for b in self.all_bats}
         m._inverter_caches = {i: _Cache() for invs in self.inv_ids for i in invs}
-        m._component_pool_status_tracker = _Tracker()
+        self.tracker = _Tracker()
+        m._component_pool_status_tracker = self.tracker
         m._power_distributor_exponent = 1.0
         m._distribution_algorithm = BatteryDistributionAlgorithm(1.0)
         self.mgr = m
@@ -304,6 +310,7 @@ class Rig:
 
     def activate(self) -> None:
         self.connection_manager._CONNECTION_MANAGER = self.cm  # pylint: disable=protected-access
+        self.tracker.working = None
 
     # -- data -----------------------------------------------------------------
     def build(self, groups: list) -> list:
@@ -401,6 +408,8 @@ class Rig:
         self.build(groups)
         mgr = self.mgr
         M = self.MID
+        working = {self.bat_ids[g][k] for g, ws in enumerate(case["wk"]) for k, w_ in enumerate(ws) if w_}
+        self.tracker.working = working
         metrics = {}
         for c in mgr._battery_caches.values():
             b = c.v
@@ -414,7 +423,7 @@ class Rig:
                 M.ACTIVE_POWER_EXCLUSION_LOWER_BOUND: i.active_power_exclusion_lower_bound,
                 M.ACTIVE_POWER_EXCLUSION_UPPER_BOUND: i.active_power_exclusion_upper_bound,
                 M.ACTIVE_POWER_INCLUSION_UPPER_BOUND: i.active_power_inclusion_upper_bound})
-        sb = self.calc.calculate(metrics, set(self.all_bats))
+        sb = self.calc.calculate(metrics, set(working))
         if sb.inclusion_bounds is None or sb.exclusion_bounds is None:
             raise MachineryError("PowerBoundsCalculator returned no bounds for complete data")
         adv = [fpw(sb.inclusion_bounds.lower.as_watts()), fpw(sb.exclusion_bounds.lower.as_watts()),
@@ -438,7 +447,8 @@ class Rig:
             _, excl = algo._inclusion_exclusion_bounds(mpairs, supply=supply)
             ratios, _ = algo._compute_battery_availability_ratio(mpairs, {pr.battery.component_id: 1.0 for pr in mpairs}, excl)
             mps.append(fpw(sum(r.min_power for r in ratios)))
-        return dict(id=case["id"], kind="bounds", g=groups, hp=hps, adv=adv, enf=enf, accA=acc_a, accN=acc_n, cont=cont, mpC=mps[0], mpS=mps[1])
+        self.tracker.working = None
+        return dict(id=case["id"], kind="bounds", g=groups, wk=case["wk"], hp=hps, adv=adv, enf=enf, accA=acc_a, accN=acc_n, cont=cont, mpC=mps[0], mpS=mps[1])
 
 
 _STAGEFILES: list = []  # (cases file, number of lines, kind, stage name); set before the workers are forked
@@ -648,7 +658,8 @@ NEEDED = {
     "C02": ["nonzero_setpoint", "noheadroom", "allnoheadroom", "at_excl", "at_incl", "multi_inverter", "multi_battery",
             "cover_partial_branch", "cover_multi_donor", "third_inverter_powered", "not_advertised", "inside_enforced_zone", "beyond_incl_noadjust",
             "rejected_runs"],
-    "C17": ["probes", "in_advertised", "contains", "rejected", "excl_differs", "manager", "multi_inverter", "multi_battery"],
+    "C17": ["probes", "in_advertised", "contains", "rejected", "excl_differs", "manager", "multi_inverter", "multi_battery",
+            "partially_working", "group_not_working"],
 }
 
 
@@ -690,7 +701,7 @@ def replay(prop: str, data: dict) -> int:
         print(json.dumps(data, indent=1)[:4000])
         return 0
     work = scratch(f"{prop}_replay")
-    case = {k: rec[k] for k in ("g", "p", "e", "hp") if k in rec}  # kind "dist", "reject" or "bounds"
+    case = {k: rec[k] for k in ("g", "p", "e", "hp", "wk") if k in rec}  # kind "dist", "reject" or "bounds"
     path = work / "cases.ndjson"
     path.write_text(json.dumps(case) + "\n")
     _STAGEFILES[:] = [(path, 1, rec["kind"], "replay")]
